@@ -332,6 +332,9 @@ func (p *Profile) genEvent(rng *rand.Rand, tr *Trace) M {
 		}
 		key := []string{"user.name", "user.email", "core.x", "user.x", "user.name", "user.email"}[rng.Intn(6)]
 		v := vals[rng.Intn(len(vals))]
+		if rng.Intn(2) == 0 {
+			v = genValue(rng, key == "user.name")
+		}
 		if key == "user.email" {
 			v = genEmail(rng)
 		}
@@ -637,4 +640,35 @@ func genEmail(rng *rand.Rand) string {
 		s += pick(alnum, 1) + pick(alnum+"-", rng.Intn(6)) + "."
 	}
 	return s + pick(alpha, 2+rng.Intn(4))
+}
+
+// genValue draws a configuration value from C20's domain (printable characters, inner single spaces): one to three
+// words, each with one punctuation character somewhere, so that over a run every printable ASCII punctuation
+// character occurs at the start, in the middle and at the end of a word. A user name has no '<' (C12's domain);
+// no value starts with '-' (the command line would read it as an option).
+func genValue(rng *rand.Rand, isName bool) string {
+	const punct = "!\"#$%&'()*+,-./:;<=>?@[\\]^_`{|}~"
+	words := []string{"Release", "Bot", "nightly", "R2", "x", "dev", "Zoë", "名"}
+	var out []string
+	for i, n := 0, 1+rng.Intn(3); i < n; i++ {
+		w := words[rng.Intn(len(words))]
+		c := string(punct[rng.Intn(len(punct))])
+		if isName && c == "<" {
+			c = ">"
+		}
+		switch rng.Intn(4) {
+		case 0:
+			w = c + w
+		case 1:
+			w = w + c
+		case 2:
+			w = w + c + words[rng.Intn(len(words))]
+		}
+		out = append(out, w)
+	}
+	v := strings.Join(out, " ")
+	if strings.HasPrefix(v, "-") {
+		v = "x" + v
+	}
+	return v
 }
